@@ -72,6 +72,15 @@ def op_barrier(draw, n):
 
 @st.composite
 def op_swaps(draw, n):
+    if n >= 2 and draw(st.booleans()):
+        # a plain exchange of two modes (may be stated with fixed points)
+        a = draw(st.integers(0, n - 1))
+        b = (a + draw(st.integers(1, n - 1))) % n
+        pairs = [[a, b], [b, a]]
+        if draw(st.integers(0, 4)) == 0:
+            fixed = [m for m in range(n) if m not in (a, b)]
+            pairs += [[m, m] for m in fixed[:draw(st.integers(0, len(fixed)))]]
+        return ["swaps", pairs]
     keys = draw(st.lists(st.integers(0, n - 1), unique=True, min_size=0, max_size=n))
     vals = draw(st.permutations(keys))
     return ["swaps", [[k, v] for k, v in zip(keys, vals)]]
@@ -412,3 +421,73 @@ def gate_dims(prog):
         elif op[0] == "ps" and op[3] > 0:
             loss += 1
     return modes, loss, hp
+
+
+# ----------------------------------------------------------------- parameters
+def _slots(prog, path=()):
+    """Yield (path, index, kind) of numeric value slots: kind 'unit' | 'phase'."""
+    for i, op in enumerate(prog["ops"]):
+        k = op[0]
+        if k == "bs":
+            yield (path + (i,), 3, "unit")
+            if not isinstance(op[5], dict) and op[5] > 0:
+                yield (path + (i,), 5, "unit")
+        elif k == "ps":
+            yield (path + (i,), 2, "phase")
+            if not isinstance(op[3], dict) and op[3] > 0:
+                yield (path + (i,), 3, "unit")
+        elif k == "loss":
+            yield (path + (i,), 2, "unit")
+        elif k in ("add", "plus"):
+            yield from _slots(op[1], path + (i,))
+
+
+def _get_op(prog, path):
+    op = None
+    p = prog
+    for i in path:
+        op = p["ops"][i]
+        if op[0] in ("add", "plus"):
+            p = op[1]
+    return op
+
+
+@st.composite
+def parametrized(draw, prog_strategy, max_params=4, min_params=0):
+    """{"prog": program with {"p": i} slots, "values": [...], "kinds": [...]}"""
+    import copy
+    prog = copy.deepcopy(draw(prog_strategy))
+    slots = list(_slots(prog))
+    values, kinds = [], []
+    if slots:
+        n_pick = draw(st.integers(min(min_params, len(slots)), min(len(slots), max_params + 2)))
+        picked = draw(st.permutations(range(len(slots))))[:n_pick]
+        for si in sorted(picked):
+            path, idx, kind = slots[si]
+            # walk to the op
+            p = prog
+            for j, i in enumerate(path):
+                op = p["ops"][i]
+                if j < len(path) - 1:
+                    p = op[1]
+            same = [k for k, kk in enumerate(kinds) if kk == kind]
+            if same and (len(values) >= max_params or draw(st.integers(0, 2)) == 0):
+                pid = draw(st.sampled_from(same))
+            else:
+                pid = len(values)
+                values.append(op[idx])
+                kinds.append(kind)
+            op[idx] = {"p": pid}
+    return {"prog": prog, "values": values, "kinds": kinds}
+
+
+@st.composite
+def swap_heavy_program(draw, min_n=3, max_n=6, max_ops=12):
+    n = draw(st.integers(min_n, max_n))
+    ops = []
+    for _ in range(draw(st.integers(3, max_ops))):
+        if draw(st.integers(0, 9)) < 5:
+            ops.append(draw(op_swaps(n)))
+        else:
+            ops.append(draw(primitive(n, True)))
+    return {"n": n, "ops": ops}
